@@ -30,6 +30,24 @@
   waiter's edge points at the resolved owner of the handed-back key, and the trace driver's decidable W3
   (`checkW3`) flags the old behaviour on the recorded trace (corpus/DG/kf-stale-edge-prefix.ops).
 
+  SECOND FINDING IN THE SAME GAP (repaired; patch corpus/C18/kf-noop-retransfer-stale-edge.patch).  The
+  other way a re-claimed key goes back to its transfer target is `transfer` (the re-execution ends in the
+  same cycle again).  `transfer_lock` returned early when the `transferred` entry was unchanged — also
+  when the transferring thread is NOT the owner's thread, i.e. it had re-claimed the key.  A thread that
+  blocked on the key meanwhile kept its edge to the re-claiming thread.  A later transfer of the owner
+  then asked `depends_on` through that stale edge, woke the wrong thread, and re-pointing the right one
+  at itself tripped "Circular reference between blocked edges" (release builds: it waits for itself
+  forever).  The code path is original (pinned commit ca4df55) but was not observed there (0 of 44 000
+  real-thread attempts, 0 of 120 000 shuttle schedules); 451fce7 made it frequent (woken waiters retry
+  at once and block on the key while it is re-claimed again): 5 of 46 attempts on the seed-1115 program
+  of corpus/C18/kf-noop-retransfer-repro.rs.  The model had the same early return (`transferLockCore`,
+  `.noop`); `Props/C19.noopHandbackOps` is the history (inside the client precondition), the old model
+  fails `checkW3` after its ninth step and refuses the last one.  The model follows the repaired code:
+  `c18_retransfer_repoints` proves that the same-owner transfer by another thread re-points every
+  remaining dependent at the owner's thread.  The generated 3-thread cases of `conc c18/c19` never reach
+  the arm (0 of 137 760 unchanged-entry transfers in 40 000 cases had another thread); real salsa needed
+  4 threads.
+
   NOT YET PROVED / NOT CLAIMED
     * liveness: livelock-freedom and termination under every schedule (bounded retries of
       `provisional_retry`-style loops) are explicitly NOT claimed; `c18_progress_partial` is only the
@@ -112,6 +130,18 @@ theorem c18_handback_wakes_waiters (ops : List Op) (s : State) (h : runC init op
     (∀ u, u ∈ s.qdeps k → s'.results u = some .completed ∧ s'.edges u = none) ∧
     (∀ k' u, u ∈ s'.qdeps k' → s'.edges u = some t → k' ≠ k) :=
   C19.w3_handback_wakes_waiters ops s h t k st hk hct hno s' hs
+
+/-- The repaired same-owner arm of `transfer_lock` (second finding, see header): in every reachable state,
+    transferring key `q`, whose `transferred` entry already is `(nt, n)`, to `n` again from a thread
+    `c ≠ nt` reports `changed`, keeps `transferred` / `transferred_dependents`, and every remaining
+    dependent of `q` points at `nt` afterwards. -/
+theorem c18_retransfer_repoints (ops : List Op) (s s' : State) (hr : run init ops = some s)
+    (q c n nt nt' : Nat) (o : SyncOwner) (kind : TransferKind)
+    (hres : newOwnerThread s q n o = some nt) (hentry : s.transferred q = some (nt, n)) (hcn : c ≠ nt)
+    (h : transferLockCore s q c n o = some (s', kind, nt')) :
+    nt' = nt ∧ kind = .changed ∧ s'.transferred = s.transferred ∧ s'.tdeps = s.tdeps ∧
+    ∀ t, t ∈ s'.qdeps q → s'.edges t = some nt :=
+  C19.w3_retransfer_repoints ops s s' hr q c n nt nt' o kind hres hentry hcn h
 
 /-- Why e06010e's condition is right (holds in EVERY state): when the transfer chain of the re-claimed
     key `k` resolves to the releasing thread `t` (it owns the transfer target), `release_self` wakes
